@@ -4,83 +4,40 @@ from core import *  # noqa
 from roles import *  # noqa
 import roles, shared, symex
 import queue_rules as Q
+import server_rules as S
 
 EXPLANATION = (
-    "Monitor discipline of MessagesQueue decided on MIR: every push is followed by a notify under the same guard; every "
-    "wait sits in a loop, is preceded by the predicate check, and every wake-up path re-checks the queue before returning "
-    "unless the wait reported a timeout (no consumed-but-ignored notification); popped elements are always moved into the "
-    "returned value; only push_back/pop_front touch the deque (FIFO); the connection task pushes every parsed request; "
-    "nothing blocking runs under the queue lock (mono effect graph); Request is not Clone.")
-TRUSTED = ["rustc MIR / trait resolution", "std effect table", "std Mutex/Condvar semantics (a notified waiter re-acquires the lock)"]
+    "Monitor discipline of the request queue decided on MIR, independent of how entries are represented and of how the code is "
+    "split into helpers (API methods are analysed with their helpers spliced in; variant propagation decides what a consumer does "
+    "with an element / a token / an empty queue): every push is followed by a notify under the same guard; every wait sits in a "
+    "loop, is preceded by the predicate check, and every wake-up path re-checks the queue before returning unless the wait "
+    "reported a timeout (no consumed-but-ignored notification); a popped element is always what the consumer returns; only "
+    "push_back/pop_front touch the deque (FIFO); recv/recv_timeout/try_recv return the queued request; the connection task "
+    "pushes every parsed request exactly once; nothing blocking runs under the queue lock (mono effect graph); Request is not Clone.")
+TRUSTED = ["rustc MIR / trait resolution", "std effect table", "std Mutex/Condvar semantics (a notified waiter re-acquires the lock)",
+           "MIR of the small std combinators (Option/Result methods, `?`) as shipped with the toolchain"]
 
 
 def run(ctx):
     facts = ctx.facts
     roles.bind(facts)
+    m = Q.model(facts)
     n = Q.rule_notify_after_push(ctx, "C07.1")
-    ctx.floor("C07.1 push_back sites", n, 2)
+    ctx.floor("C07.1 push_back sites in the queue's API methods", n, 2)
     n = Q.rule_wait_protocol(ctx, "C07.2")
     ctx.floor("C07.2 wait sites", n, 2)
     n = Q.rule_no_loss(ctx, "C07.3")
     ctx.floor("C07.3 pop_front sites", n, 3)
-    # Server::{recv, recv_timeout, try_recv}: the NewRequest payload is what is returned
-    n = 0
-    for f in facts.find_fns(r"^Server::(recv|recv_timeout|try_recv)$"):
-        ctx.touch(f)
-        for bb in sorted(f.live_blocks()):
-            sw = switch_on_discr(f, bb)
-            if sw and sw[0].get("adt") == "Message":
-                rv, m, otherwise, rest = sw
-                tgt = m.get("NewRequest", otherwise if "NewRequest" in rest else None)
-                ctx.require(tgt is not None, "C07.3: no NewRequest arm in %s" % f.id)
-                n += 1
-                outs = shared.eval_from(f, tgt)
-                ok = bool(outs)
-                for p, st in outs:
-                    v = st.read_key((0,))
-                    s = symex.sym_str(v)
-                    okp = v[0] == "agg" and v[2] == "Ok" and "NewRequest" in str(v)
-                    ok = ok and okp
-                ctx.ob("C07.3", "%s|request-returned" % f.id, "the request taken from the queue is the value returned to the application", ok, f.loc(tgt))
+    n = S.rule_recv_mapping(ctx, "C07.3", which=("request",))
     ctx.floor("C07.3 Server receive functions", n, 3)
-    inc = method(facts, T_ITER, "IncomingRequests", "next")
-    o = inc.origin_place({"l": 0, "p": []})
-    ok = o[0] == "call" and o[1].endswith("Result::<T, E>::ok") and origin_has_call(o, r"^Server::recv$")
-    ctx.ob("C07.3", "%s|forwards-recv" % inc.id, "the incoming-requests iterator yields exactly what recv() returns", ok, "%s:%d" % (inc.file, inc.line), origin_str(o))
+    S.rule_incoming_forwards_recv(ctx, "C07.3")
     n = Q.rule_fifo_census(ctx, "C07.4")
     ctx.floor("C07.4 deque call sites", n, 5)
-
-    # ---- C07.5 the connection task pushes every parsed request
-    cc_next = method(facts, T_ITER, CC, "next")
-    mq_push = roles.inherent(facts, MQ, "push")
-    sites = facts.callers_of(cc_next.id)
-    ctx.floor("C07.5 connection-iterator call sites", len(sites), 1)
-    for k, (f, bb, t) in enumerate(sites):
-        ctx.touch(f, calls=1)
-        sw = None
-        for b2 in sorted(f.reach([t["target"]], unwind=False)):
-            s2 = switch_on_discr(f, b2)
-            if s2 and not s2[0]["pl"]["p"] and s2[0]["pl"]["l"] == t["dest"]["l"]:
-                sw = s2
-                break
-        ctx.require(sw is not None, "C07.5: result of the connection iterator is not matched in %s" % f.id)
-        rv, m, otherwise, rest = sw
-        some_t = m.get("Some", otherwise if "Some" in rest else None)
-        pushes = set(f.call_blocks(lambda t2: call_is(t2, mq_push.id)))
-        reach = f.reach([some_t], blocked=pushes, unwind=False)
-        ok = bool(pushes) and bb not in reach and not any(r in reach for r in f.returns())
-        ctx.paths += 1
-        ctx.ob("C07.5", "%s|push-every-request|%d" % (f.id, k), "every request produced by the connection parser is pushed to the server's queue (no filter, no early exit)",
-               ok, f.loc(bb), None if ok else "path from `Some(rq)` back to next()/return without MessagesQueue::push")
-        for pb in pushes:
-            if pb in f.reach([some_t], unwind=False):
-                o = f.origin(f.term(pb)["args"][1])
-                okp = any(x[0] == "downcast" and x[2] == "Some" for x in origin_walk(o))
-                ctx.ob("C07.5", "%s|pushes-that-request|%d" % (f.id, k), "what is pushed is the request just parsed", okp, f.loc(pb), origin_str(o))
-
+    S.rule_connection_task_pushes(ctx, "C07.5")
     n = Q.rule_under_lock_effects(ctx, "C07.6")
     ctx.floor("C07.6 calls under the queue lock", n, 8)
+    msg, shapes = S.message_shapes(facts)
     for tr in (T_CLONE, T_COPY):
         ctx.ob("C07.7", "noimpl|%s|%s" % (tr, REQ), "a Request cannot be duplicated, so at most one receiver obtains it", not facts.has_impl(tr, REQ), REQ)
-        ctx.ob("C07.7", "noimpl|%s|%s" % (tr, "Message"), "a queued message cannot be duplicated", not facts.has_impl(tr, "Message"), "Message")
+        ctx.ob("C07.7", "noimpl|%s|%s" % (tr, msg), "a queued message cannot be duplicated", not facts.has_impl(tr, msg), msg)
     return {}
